@@ -906,17 +906,24 @@ def case_skl(ctx, lines, expect, cfg):
         pre = "unfitted-estimator-samples-from-label-distribution" if branch == "unfitted" else est_name
         oracle_predict(ctx, "SklearnClassifier", y_pred, P, C, clf.classes_, cfg, pre=pre)
     pred_int = lab.to_int(list(y_pred), clf.classes_)
-    if branch == "cost":
-        decision_lines(ctx, lines, expect, lab, clf.classes_, y_pred, costs, noise, P, C, cfg, "skl")
+    if branch in ("cost", "unfitted"):
+        if costs is None or noise is None:
+            # the branch no longer goes through rand_argmin (e.g. it samples labels again): nothing to feed the model with
+            msg = f"SklearnClassifier.predict ({branch} branch) did not call rand_argmin"
+            if msg not in ctx.broken:
+                ctx.broken.append(msg)
+        else:
+            Pd = P if Pu is None else Pu
+            decision_lines(ctx, lines, expect, lab, clf.classes_, y_pred, costs, noise, Pd, C, cfg, "skl:" + branch)
+            if is_dyadic(Pd) and is_dyadic(C, 8):
+                lines.append(f"skpredict {k} {' '.join(map(str, cls_int))} {int(fitted)} {int(cost is not None)} {n} {' '.join(['0'] * n)} "
+                             f"{flat_bits(Pd)} {flat_bits(C)} {flat_bits(noise)}")
+                expect.append((" ".join(map(str, pred_int)), dict(cfg, what="skpredict:" + branch)))
     z = " ".join(["0"] * (n * k))
     if branch == "estimator" and est_name == "spy":
         ep_int = lab.to_int(list(est_.last_pred_), clf.classes_)
-        lines.append(f"skpredict {k} {' '.join(map(str, cls_int))} 1 0 {n} {' '.join(map(str, ep_int))} {z} {' '.join(['0'] * (k * k))} {z} {' '.join(['0'] * n)}")
+        lines.append(f"skpredict {k} {' '.join(map(str, cls_int))} 1 0 {n} {' '.join(map(str, ep_int))} {z} {' '.join(['0'] * (k * k))} {z}")
         expect.append((" ".join(map(str, pred_int)), dict(cfg, what="skpredict:estimator")))
-    if branch == "unfitted":
-        lines.append(f"skpredict {k} {' '.join(map(str, cls_int))} 0 {int(cost is not None)} {n} {' '.join(['0'] * n)} {z} {' '.join(['0'] * (k * k))} {z} "
-                     + " ".join(str(int(c)) for c in np.atleast_1d(choice)))
-        expect.append((" ".join(map(str, pred_int)), dict(cfg, what="skpredict:unfitted")))
 
 
 def gen_skl(rng, est=None):
